@@ -167,6 +167,20 @@ def run(res):
         refs = [(l if s or structural(l) or rng.random() < 0.5 else rng.choice([" ldi r17, @1", " .dw @3, @2", "@0", " .db @9", l + " ; @1"])) for l, s in t]
         t2 = [(r, s) for r, (l, s) in zip(refs, t)]
         pairs.append(texts_of(t2, wrap=rng.choice([[], ["1"], ["r16"]])))
+    # a conditional inside a macro body is decided anew at EVERY expansion: the body changes what its own condition tests
+    # (a flag defined, a constant bound), so the same call selects another arm the next time
+    for calls in (2, 3, 5):
+        for pre, post in (("", ""), (".org 0x20\n", ""), ("", " nop\n"), ("here: nop\n", "")):
+            body = [".ifndef STAGE1", ".define STAGE1", " .dw 1", ".else", ".ifndef STAGE2", ".define STAGE2", " .dw 2", ".else", " .dw 3", ".endif", ".endif"]
+            full = ".macro step\n" + "\n".join(body) + "\n.endm\n" + pre + (" step\n" + post) * calls
+            hand = pre + "".join(" .dw %d\n" % min(i + 1, 3) + post for i in range(calls))
+            pairs.append((full, hand))
+            body2 = [".ifdef SEEN", " .db 0xBB, 0xBB", ".else", " .db 0xAA, 0xAA", ".equ first_at = pc", ".define SEEN", ".endif"]
+            full2 = ".macro once\n" + "\n".join(body2) + "\n.endm\n" + pre + (" once\n" + post) * calls
+            hand2 = pre + "".join((" .db 0xAA, 0xAA\n" if i == 0 else " .db 0xBB, 0xBB\n") + post for i in range(calls))
+            pairs.append((full2, hand2))
+            # the same with an argument that is not used by the condition
+            pairs.append((full.replace(" step\n", " step 1\n"), hand))
     obs = P.correspond(res, vh, exe, [p[0] for p in pairs] + [p[1] for p in pairs], "conditional-assembly programs")
     nsel = 0
     for full, blank in pairs:
